@@ -10,6 +10,7 @@ import (
 	_ "verifharness/sims/isolation"
 	_ "verifharness/sims/lifetime"
 	_ "verifharness/sims/linking"
+	_ "verifharness/sims/nonsem"
 	_ "verifharness/sims/term"
 	_ "verifharness/sims/wasifs"
 )
